@@ -63,6 +63,7 @@ type opKind int
 type op struct {
 	enabled func() bool
 	label   string
+	obj     uintptr // identity of the object operated on (channels), 0 if none
 }
 
 type thread struct {
@@ -104,6 +105,8 @@ type sched struct {
 	chans     map[uintptr]*chanState
 	trace     []string
 	tracing   bool
+	symmetric []string
+	idleFires int
 }
 
 var s = &sched{}
@@ -115,7 +118,19 @@ type Config struct {
 	StartMs     int64  // virtual clock start (unix ms)
 	Monitor     func() // called after every executed step, in pass-through mode
 	Trace       bool   // record a textual trace of steps (for replays)
+	// Symmetric lists thread-name substrings of interchangeable worker threads
+	// (same spawn site, no state carried between jobs). Among enabled threads of
+	// one class that are pending on the same operation on the same object only
+	// the lowest id is offered to the chooser.
+	Symmetric []string
 }
+
+// Steps returns the number of scheduling steps taken so far in this execution.
+func Steps() int { return s.steps }
+
+// Running reports whether a controlled execution (incl. its teardown and
+// monitor callbacks) is in progress.
+func Running() bool { return s.threads != nil }
 
 // Active reports whether a controlled execution is in progress.
 func Active() bool { return s.active && !s.teardown }
@@ -129,7 +144,7 @@ func Run(cfg Config, ch Chooser, main func()) Outcome {
 	}
 	*s = sched{active: true, chooser: ch, maxSteps: cfg.MaxSteps, monitor: cfg.Monitor,
 		nowMs: cfg.StartMs, timerBudg: cfg.TimerBudget, finished: make(chan Outcome, 1),
-		chans: map[uintptr]*chanState{}, tracing: cfg.Trace}
+		chans: map[uintptr]*chanState{}, tracing: cfg.Trace, symmetric: cfg.Symmetric}
 	if s.maxSteps == 0 {
 		s.maxSteps = 200000
 	}
@@ -282,6 +297,24 @@ func ThreadID() int {
 	return -1
 }
 
+// Settle lets every other thread run until all of them are blocked, then
+// returns (used at the end of a deterministic set-up phase so that freshly
+// spawned service threads are parked at their first blocking operation).
+func Settle() {
+	if !Active() {
+		return
+	}
+	self := s.cur
+	point("settle", func() bool {
+		for _, t := range s.threads {
+			if t != self && !t.done && t.pending != nil && t.pending.enabled() {
+				return false
+			}
+		}
+		return true
+	})
+}
+
 // Yield is a visible no-op (a pure scheduling point).
 func Yield() { point("yield", nil) }
 
@@ -297,7 +330,9 @@ func Abort(detail string) {
 
 // point announces a visible operation of the running thread and returns when
 // the thread has been chosen to execute it. enabled==nil means always enabled.
-func point(label string, enabled func() bool) {
+func point(label string, enabled func() bool) { pointObj(label, 0, enabled) }
+
+func pointObj(label string, obj uintptr, enabled func() bool) {
 	if !s.active {
 		if enabled != nil && !enabled() {
 			panic("vsched: operation would block outside a controlled execution: " + label)
@@ -312,7 +347,7 @@ func point(label string, enabled func() bool) {
 	if enabled == nil {
 		enabled = alwaysEnabled
 	}
-	t.pending = &op{enabled: enabled, label: label}
+	t.pending = &op{enabled: enabled, label: label, obj: obj}
 	s.reschedule(t, false)
 	t.pending = nil
 }
@@ -364,13 +399,14 @@ func (s *sched) reschedule(self *thread, exiting bool) {
 			if t == self || t.done || t.pending == nil {
 				continue
 			}
-			if t.pending.enabled() {
+			if t.pending.enabled() && !s.redundant(t, en) {
 				en = append(en, t)
 			}
 		}
 		nt := s.nextTimer()
 		if len(en) == 0 {
-			if nt != nil {
+			if nt != nil && s.idleFires < 25 {
+				s.idleFires++
 				s.fireTimer(nt) // time passes when everybody waits
 				continue
 			}
@@ -417,6 +453,9 @@ func (s *sched) reschedule(self *thread, exiting bool) {
 		if s.tracing {
 			s.logf("T%d %s", next.id, opLabel(next))
 		}
+		if !next.daemon {
+			s.idleFires = 0
+		}
 		if next == self {
 			s.afterStep()
 			return
@@ -431,6 +470,30 @@ func (s *sched) reschedule(self *thread, exiting bool) {
 		s.afterStep()
 		return
 	}
+}
+
+// redundant reports whether t is interchangeable with a thread already in en.
+func (s *sched) redundant(t *thread, en []*thread) bool {
+	if len(s.symmetric) == 0 {
+		return false
+	}
+	sym := false
+	for _, n := range s.symmetric {
+		if strings.Contains(t.name, n) {
+			sym = true
+			break
+		}
+	}
+	if !sym {
+		return false
+	}
+	for _, o := range en {
+		if o.name == t.name && o.pending != nil && o.pending.label == t.pending.label &&
+			o.pending.obj == t.pending.obj && (t.pending.obj != 0 || t.pending.label == "start") {
+			return true
+		}
+	}
+	return false
 }
 
 func opLabel(t *thread) string {
